@@ -971,9 +971,28 @@ func c10R4(p *core.Program, r *core.Report) {
 				}
 				undecided := false
 				core.ExplorePaths(acc, core.PathRules{
+					OnCall: func(s *core.PathState, c ssa.CallInstruction) []core.CallOutcome {
+						// `resume type is one of these` written as a helper over a variadic list of constants
+						g := c.Common().StaticCallee()
+						if idx := c10MembershipHelper(g); idx >= 0 && idx < len(c.Common().Args) {
+							if set, ok := c10ConstStrings(c.Common().Args[idx]); ok {
+								in := false
+								for _, k := range set {
+									if k == rt {
+										in = true
+									}
+								}
+								return []core.CallOutcome{{Result: boolAB(in)}}
+							}
+						}
+						return nil
+					},
 					OnBranch: func(s *core.PathState, cond ssa.Value) core.AB {
 						d := decide(cond)
 						if d == core.Unk {
+							if v := s.Val(cond); v != core.Unk {
+								return v
+							}
 							undecided = true
 						}
 						return d
@@ -1224,4 +1243,100 @@ func c10R7(p *core.Program, r *core.Report) {
 		uses(node)
 	}
 	r.Require("pathlocation_node_uses", n, 2)
+}
+
+// c10MembershipHelper: g(resume, list...) answers whether resume.Type() is an element of its slice parameter — every
+// `return true` lies under `X.Type() == list[i]` inside a loop over that parameter, every other return is false.
+// Returns the index of the slice parameter, or -1.
+func c10MembershipHelper(g *ssa.Function) int {
+	if g == nil || g.Blocks == nil || g.Signature.Results().Len() != 1 {
+		return -1
+	}
+	if b, ok := g.Signature.Results().At(0).Type().Underlying().(*types.Basic); !ok || b.Kind() != types.Bool {
+		return -1
+	}
+	idx := -1
+	for i, prm := range g.Params {
+		if sl, ok := prm.Type().Underlying().(*types.Slice); ok {
+			if b, ok := sl.Elem().Underlying().(*types.Basic); ok && b.Kind() == types.String {
+				idx = i
+			}
+		}
+	}
+	if idx < 0 {
+		return -1
+	}
+	list := g.Params[idx]
+	sawTrue := false
+	for _, ret := range core.Returns(g) {
+		c, ok := ret.Results[0].(*ssa.Const)
+		if !ok || c.Value == nil {
+			return -1
+		}
+		if c.Value.String() != "true" {
+			continue
+		}
+		sawTrue = true
+		gated := false
+		for _, ce := range core.ControllingConds(ret.Block()) {
+			bo, ok := ce.Cond.(*ssa.BinOp)
+			if !ok || bo.Op != token.EQL || !ce.Taken {
+				continue
+			}
+			isType := func(v ssa.Value) bool {
+				cc, ok := v.(*ssa.Call)
+				return ok && cc.Call.IsInvoke() && cc.Call.Method.Name() == "Type"
+			}
+			isElem := func(v ssa.Value) bool {
+				ld, ok := v.(*ssa.UnOp)
+				if !ok {
+					return false
+				}
+				ia, ok := ld.X.(*ssa.IndexAddr)
+				return ok && ia.X == ssa.Value(list)
+			}
+			if (isType(bo.X) && isElem(bo.Y)) || (isType(bo.Y) && isElem(bo.X)) {
+				gated = true
+			}
+		}
+		if !gated {
+			return -1
+		}
+	}
+	if !sawTrue {
+		return -1
+	}
+	return idx
+}
+
+// c10ConstStrings: the constant strings of a variadic argument list built at the call site.
+func c10ConstStrings(v ssa.Value) ([]string, bool) {
+	if core.IsNilConst(v) {
+		return nil, true
+	}
+	sl, ok := v.(*ssa.Slice)
+	if !ok {
+		return nil, false
+	}
+	al, ok := sl.X.(*ssa.Alloc)
+	if !ok || al.Referrers() == nil {
+		return nil, false
+	}
+	var out []string
+	for _, ref := range *al.Referrers() {
+		ia, ok := ref.(*ssa.IndexAddr)
+		if !ok || ia.Referrers() == nil {
+			continue
+		}
+		for _, r2 := range *ia.Referrers() {
+			if st, ok := r2.(*ssa.Store); ok && st.Addr == ssa.Value(ia) {
+				sc, isC := core.ConstString(st.Val)
+				if !isC {
+					return nil, false
+				}
+				out = append(out, sc)
+			}
+		}
+	}
+	return out, true
 }
